@@ -59,13 +59,14 @@ import (
 	"flag"
 	"fmt"
 	"go/ast"
-	"go/parser"
 	"go/token"
+	"go/types"
 	"os"
-	"path/filepath"
 	"sort"
 	"strconv"
 	"strings"
+
+	"gtverif/internal/srcset"
 )
 
 // what a translated function looks like from a call site
@@ -80,6 +81,7 @@ var (
 	decls      = map[string]*ast.FuncDecl{}
 	sigs       = map[string]*sig{}
 	inProgress = map[string]bool{}
+	dupes      = map[string]bool{} // declared more than once in the files that take part in the build
 	usedCoq    = map[string]bool{}
 	helpers    []string
 	translated []string
@@ -202,6 +204,10 @@ func lookup(name string) *sig {
 	}
 	fd, ok := decls[name]
 	if !ok || inProgress[name] {
+		return nil
+	}
+	if dupes[name] {
+		problems = append(problems, name+": declared more than once in the files that take part in the build")
 		return nil
 	}
 	translate(name, fd)
@@ -493,6 +499,13 @@ func (f *fn) assigned(list []ast.Stmt) []string {
 	walk = func(n ast.Node) bool {
 		switch s := n.(type) {
 		case *ast.AssignStmt:
+			if len(s.Lhs) == 1 && f.w != nil {
+				if sel, ok := s.Lhs[0].(*ast.SelectorExpr); ok {
+					if id, ok := sel.X.(*ast.Ident); ok && f.w.ignoredField(f, id.Name, sel.Sel.Name) {
+						return false // not part of the rendering: neither the field nor what is assigned to it
+					}
+				}
+			}
 			for _, l := range s.Lhs {
 				switch t := l.(type) {
 				case *ast.IndexExpr:
@@ -1409,37 +1422,195 @@ func main() {
 	srcDir := flag.String("src", "", "path of the gencommon directory")
 	out := flag.String("out", "ParamsGen.v", "output file")
 	flag.Parse()
-	fset := token.NewFileSet()
-	var ifaceFile *ast.File
-	for _, name := range []string{"params.go", "method.go", "imports.go", "interface.go"} {
-		file, err := parser.ParseFile(fset, filepath.Join(*srcDir, name), nil, 0)
-		if err != nil {
-			fmt.Fprintln(os.Stderr, err)
-			os.Exit(2)
-		}
-		if name == "interface.go" {
-			ifaceFile = file
-			continue // only the merge loop and the listing condition are taken from it
-		}
-		for _, d := range file.Decls {
-			if fd, ok := d.(*ast.FuncDecl); ok && fd.Body != nil {
-				if name == "imports.go" && fd.Name.Name != "ImportString" {
-					wdecls[fd.Name.Name] = fd
-					continue
+	// the file set of the package as the compiler selects it (build constraints, Go version tags,
+	// the harness tag "verif"): a function delivered in a sibling file is found, one in a file the
+	// build rejects is not, one declared twice breaks the tie
+	pkg, err := srcset.Load(*srcDir, "verif")
+	if err != nil {
+		fmt.Fprintln(os.Stderr, err)
+		os.Exit(2)
+	}
+	all := map[string][]*ast.FuncDecl{}
+	worldType := func(t ast.Expr) bool {
+		found := false
+		ast.Inspect(t, func(n ast.Node) bool {
+			switch x := n.(type) {
+			case *ast.SelectorExpr:
+				if id, ok := x.X.(*ast.Ident); ok && (id.Name == "types" || id.Name == "packages" || id.Name == "ast" || id.Name == "set") {
+					found = true
 				}
-				switch fd.Name.Name {
-				case "TypeNames", "Declarations", "Signature", "ParamsFromSignatureTuple", "MethodFromSignature":
-					wdecls[fd.Name.Name] = fd // read again in the vocabulary of world.go
-					if fd.Name.Name != "MethodFromSignature" { // the entry of the naming functions is found through it
-						continue
+			case *ast.Ident:
+				switch x.Name {
+				case "ImportHandler", "Method", "Param", "Interface", "named":
+					found = true
+				}
+			}
+			return !found
+		})
+		return found
+	}
+	reg := func(m map[string]*ast.FuncDecl, fd *ast.FuncDecl) {
+		if prev, has := m[fd.Name.Name]; has && prev != fd {
+			dupes[fd.Name.Name] = true
+		}
+		m[fd.Name.Name] = fd
+	}
+	for _, file := range pkg.Files {
+		for _, d := range file.Decls {
+			fd, ok := d.(*ast.FuncDecl)
+			if !ok || fd.Body == nil {
+				continue
+			}
+			all[fd.Name.Name] = append(all[fd.Name.Name], fd)
+			recv := ""
+			if fd.Recv != nil && len(fd.Recv.List) == 1 {
+				t := fd.Recv.List[0].Type
+				if st, ok := t.(*ast.StarExpr); ok {
+					t = st.X
+				}
+				if id, ok := t.(*ast.Ident); ok {
+					recv = id.Name
+				} else {
+					recv = "?"
+				}
+			}
+			name := fd.Name.Name
+			switch {
+			case recv == "ImportDesc":
+				reg(decls, fd)
+			case recv == "ImportHandler":
+				reg(wdecls, fd)
+			case (recv == "Params" && (name == "TypeNames" || name == "Declarations")) || (recv == "Method" && name == "Signature") ||
+				(recv == "" && name == "ParamsFromSignatureTuple"):
+				reg(wdecls, fd) // read in the vocabulary of world.go
+			case recv == "" && name == "MethodFromSignature":
+				reg(wdecls, fd)
+				reg(decls, fd) // the entry of the naming functions is found through it
+			case recv == "Params" || recv == "Method":
+				reg(decls, fd)
+			case recv == "":
+				world := false
+				for _, p := range fd.Type.Params.List {
+					world = world || worldType(p.Type)
+				}
+				if fd.Type.Results != nil {
+					for _, p := range fd.Type.Results.List {
+						world = world || worldType(p.Type)
 					}
 				}
-				decls[fd.Name.Name] = fd
+				if world {
+					reg(wdecls, fd)
+				} else {
+					reg(decls, fd)
+				}
 			}
 		}
 	}
+	// what FindInterface reaches (by name): where the loops of namedTypeToInterface are looked for
+	reach, todo := map[*ast.FuncDecl]bool{}, append([]*ast.FuncDecl{}, all["FindInterface"]...)
+	if len(todo) != 1 {
+		problems = append(problems, fmt.Sprintf("FindInterface: declared %d times in the files that take part in the build (%s; excluded: %s)",
+			len(todo), strings.Join(pkg.Names, " "), strings.Join(pkg.Excluded, " ")))
+	}
+	for len(todo) > 0 {
+		fd := todo[0]
+		todo = todo[1:]
+		if reach[fd] {
+			continue
+		}
+		reach[fd] = true
+		ast.Inspect(fd.Body, func(n ast.Node) bool {
+			if c, ok := n.(*ast.CallExpr); ok {
+				name := ""
+				switch fun := c.Fun.(type) {
+				case *ast.Ident:
+					name = fun.Name
+				case *ast.SelectorExpr:
+					name = fun.Sel.Name
+				}
+				for _, callee := range all[name] {
+					if callee.Recv != nil || name != "" {
+						todo = append(todo, callee)
+					}
+				}
+			}
+			return true
+		})
+	}
+	ifaceFile := &ast.File{Name: ast.NewIdent("gencommon")}
+	for _, file := range pkg.Files { // in source order
+		for _, d := range file.Decls {
+			if fd, ok := d.(*ast.FuncDecl); ok && reach[fd] {
+				if _, world := wdecls[fd.Name.Name]; world && wdecls[fd.Name.Name] == fd && fd.Recv != nil {
+					continue // methods of the handler are translated on their own
+				}
+				ifaceFile.Decls = append(ifaceFile.Decls, fd)
+			}
+		}
+	}
+	// package state and types the translation relies on
+	for _, v := range []string{"ErrorInterface", "ContextInterface"} {
+		// the init() next to the declaration sets them; anything else rewriting them moves the oracle bits
+		declFile := ""
+		for i, file := range pkg.Files {
+			for _, d := range file.Decls {
+				if gd, ok := d.(*ast.GenDecl); ok && gd.Tok == token.VAR {
+					for _, sp := range gd.Specs {
+						if vs, ok := sp.(*ast.ValueSpec); ok {
+							for _, n := range vs.Names {
+								if n.Name == v {
+									declFile = pkg.Names[i]
+								}
+							}
+						}
+					}
+				}
+			}
+		}
+		var others []string
+		for _, w := range pkg.WritesTo(v) {
+			if w != declFile+":init" {
+				others = append(others, w)
+			}
+		}
+		if declFile == "" || len(others) > 0 {
+			problems = append(problems, v+": declared in "+declFile+", written by "+strings.Join(others, ", ")+" (the oracle bits assume the interfaces its own init() sets)")
+		}
+	}
+	for typ, fields := range map[string]map[string]string{
+		"Param":         {"ActualType": "types.Type", "TypeRef": "string", "Name": "string", "Variadic": "bool", "TypeArgNames": "[]string"},
+		"ImportDesc":    {"Alias": "string", "PkgPath": "string", "aliasIsPackageName": "bool", "inUse": "bool"},
+		"ImportHandler": {"PInfo": "*packages.Package", "imports": "map[string]*ImportDesc", "shadowed": "[]*ImportDesc"},
+		"Method":        {"Name": "string", "Input": "Params", "Output": "Params"},
+		"Interface":     {"Methods": "Methods"},
+	} {
+		ts, err := pkg.TypeSpec(typ)
+		if err != nil {
+			problems = append(problems, "type "+typ+": "+err.Error())
+			continue
+		}
+		st, ok := ts.Type.(*ast.StructType)
+		if !ok {
+			problems = append(problems, "type "+typ+": not a struct")
+			continue
+		}
+		have := map[string]string{}
+		for _, fl := range st.Fields.List {
+			for _, n := range fl.Names {
+				have[n.Name] = types.ExprString(fl.Type)
+			}
+		}
+		for fn, ft := range fields {
+			if have[fn] != ft {
+				problems = append(problems, fmt.Sprintf("type %s: field %s is %q, the translation assumes %q", typ, fn, have[fn], ft))
+			}
+		}
+	}
+	if ts, err := pkg.TypeSpec("Params"); err != nil || types.ExprString(ts.Type) != "[]*Param" {
+		problems = append(problems, "type Params: the translation assumes []*Param")
+	}
 	var b strings.Builder
-	b.WriteString("(* GENERATED by harness/cmd/xlate_params from gencommon/params.go, method.go, imports.go and interface.go of the current tree — do not edit *)\n")
+	b.WriteString("(* GENERATED by harness/cmd/xlate_params from the files of package gencommon that take part in the build of the current tree — do not edit *)\n")
 	b.WriteString("From Coq Require Import List Bool String NArith Arith.\nImport ListNotations.\nFrom GT Require Import IFaceModel IFaceGenPrims.\n\n")
 	e := entry()
 	delete(decls, "MethodFromSignature") // read in the vocabulary of world.go from here on
@@ -1468,18 +1639,12 @@ func main() {
 	b.WriteString(stepHelpers)
 	b.WriteString(step)
 	b.WriteString(defs.String())
-	// interface.go: the loop over the declared methods (helpers it calls are functions of interface.go)
+	// the loop over the declared methods
 	defs.Reset()
-	for _, d := range ifaceFile.Decls {
-		if fd, ok := d.(*ast.FuncDecl); ok && fd.Body != nil && fd.Recv == nil {
-			if _, taken := wdecls[fd.Name.Name]; !taken {
-				wdecls[fd.Name.Name] = fd
-			}
-		}
-	}
 	own := ownLoop(ifaceFile)
 	b.WriteString(defs.String())
 	b.WriteString(own)
+	b.WriteString(dispatchFacts(ifaceFile))
 	for _, want := range []string{"gen_reserveParamName", "gen_getSafeParamName", "gen_keepNames", "gen_ensureNames", "gen_ensureParamNames", "gen_ImportString"} {
 		if !usedCoq[want] {
 			b.WriteString("Definition " + want + " := UNSUPPORTED_no_function_in_the_role_of_" + want + ".\n\n")
@@ -1492,6 +1657,10 @@ func main() {
 		b.WriteString("Ltac unfold_gen_helpers := idtac.\n\n")
 	}
 	b.WriteString("(* functions translated: " + strings.Join(translated, ", ") + " *)\n")
+	if len(problems) > 0 {
+		// whatever could not be translated or checked breaks the tie: the generated file must not compile
+		b.WriteString("\n(* " + strings.ReplaceAll(strings.Join(problems, "; "), "*)", "* )") + " *)\nDefinition gen_problems := UNSUPPORTED_see_the_problems_listed_above.\n")
+	}
 	if err := os.WriteFile(*out, []byte(b.String()), 0o644); err != nil {
 		fmt.Fprintln(os.Stderr, err)
 		os.Exit(2)
